@@ -25,5 +25,6 @@ def run(ctx):
         ctx.violation('a cancelled set ran a functor: %s -> %s' % (T.d_line(d), o), {'case': T.d_line(d), 'output': o, 'cmd': 'echo "<case>" | build/harness/h_taskset-*'})
     # regression cases (witnesses of the repaired finding) first
     T.decision_phase(ctx, exe, 'judge_C04_d', 60 if ctx.quick else 1500, witnesses=[T.witness_d_c04()], on_verdict=on_d)
-    T.lockstep_phase(ctx, exe, 'judge_C04', ['cancel', 'cancel', 'mixed', 'exc'], 80 if ctx.quick else 3000, witnesses=[T.witness_c04()], on_verdict=on_l)
+    T.lockstep_phase(ctx, exe, 'judge_C04', ['cancel', 'cancel', 'mixed', 'exc'], 70 if ctx.quick else 3000, witnesses=[T.witness_c04()] + T.c04_cascade_probes(), on_verdict=on_l)
+    ctx.cov['probe_cases'] = len(T.c04_cascade_probes())
     ctx.cov['regression_cases'] = ['D: ' + T.d_line(T.witness_d_c04()), 'L: ' + T.case_line(T.witness_c04())[:120]]
